@@ -28,7 +28,7 @@ EXPLANATION = ("direct exploration with fresh classes per execution; "
                "governing trait declared explicitly + policy clauses")
 BOUNDS = {"quick": "3 base kinds x 15 names, 34 events, three instances (base, late "
                    "subclass, multiple-inheritance subclass), depth 3 with "
-                   "dedup", "thorough": "depth 5"}
+                   "dedup", "thorough": "depth 5 (level 5 over 31 of the 34 events)"}
 ASSUMPTIONS = ["dunder names are reserved by documented design and kept out "
                "of the alphabet", "wildcard prefixes as the code documents "
                "them: 'x_ = T' declares prefix 'x'"]
@@ -583,10 +583,14 @@ def run_shard(ctx, shard, tier):
     depth = 3 if tier == "quick" else 5
     frontier = [[]]
     n_exec = 0
+    # (the fifth level of the thorough tier uses the menu without the
+    #  events added last; they are complete to depth 4)
+    evs_last = [e for e in evs if e[0] not in ("add_trait_prop",
+                                               "base_adds_map")]
     for d in range(1, depth + 1):
         nxt = []
         for hist in frontier:
-            for ev in evs:
+            for ev in (evs_last if d == 5 else evs):
                 h2 = hist + [ev]
                 ctx.case({"kind": kind, "name": name, "history": h2})
                 ok, key = run_history(ctx, kind, name, h2)
